@@ -17,7 +17,9 @@ value looks like a variable is compared as a constant, any other bound value is 
 (`match` calls itself on it with the same message value and bindings) — the clause of the containment
 relation `Sat` for variables.  `tr_match_map`: a message value that is not a map does not match a map
 pattern, the empty map pattern matches any map, otherwise the answer is `mapcatMatch`'s on the one
-bindings map.  The array arm and `mapcatMatch`/`arraycatMatch` themselves are tied by execution only.
+bindings map.  `tr_mapcatMatch_const`: `mapcatMatch` on a pattern whose keys are all constants, relative
+to what `matchWithBindingss` does (`mcSpec`).  The array arm, the property-variable case of
+`mapcatMatch` and `arraycatMatch` are tied by execution only.
 -/
 
 namespace Sheens.TrMatch
@@ -394,6 +396,163 @@ theorem tr_match_map (n : Nat) (g : Env) (H : Heap) (m f : GV) (pa ab : Nat) (po
     simp only at hR
     simp [-callFn, fudgeG, hp]
     exact hR
+
+
+/-! ## `mapcatMatch` on constant keys (relative to `matchWithBindingss`) -/
+
+theorem find_mapcat : findFn matchProg ".mapcatMatch" = some matchProg_MmapcatMatch := by rfl
+
+def mcBody : List GS :=
+  match matchProg_MmapcatMatch.body with
+  | [_, GS.range _ _ _ _ body, _] => body
+  | _ => []
+
+/-- `mapcatMatch` on a pattern whose keys are all constants, given what `matchWithBindingss` does
+    (`W`): the pattern's entries in iteration order; a key the message lacks ends the match with no
+    result unless its value is an optional variable (then it is skipped); the binding sets are
+    threaded through `matchWithBindingss`, an empty list of them ends the match with no result, an
+    error comes back as it is -/
+def mcSpec (W : GV → GV → GV → Heap → R (List GV × Heap)) (fkvs : List (GV × GV)) :
+    List (GV × GV) → GV → Heap → R (Flow × GV × Heap)
+  | [], bss, H => .ok (.next, bss, H)
+  | (k, v) :: rest, bss, H =>
+    match mlookup k fkvs with
+    | none => if isOptVarG v then mcSpec W fkvs rest bss H else .ok (.ret [.nil, .nil], bss, H)
+    | some fv =>
+      match W bss v fv H with
+      | .error e => .error e
+      | .ok ([acc, .nil], H') =>
+        (match acc with
+         | .nil => .ok (.ret [.nil, .nil], bss, H')
+         | .slice [] => .ok (.ret [.nil, .nil], bss, H')
+         | .slice (x :: xs) => mcSpec W fkvs rest (.slice (x :: xs)) H'
+         | _ => .error (.stuck "len"))
+      | .ok ([_, e], H') => .ok (.ret [.nil, e], bss, H')
+      | .ok _ => .error (.stuck "assignment count")
+
+theorem mc_loop (g : Env) (m pat : GV) (fa : Nat) (fo : MapObj) (W : GV → GV → GV → Heap → R (List GV × Heap)) (K : Nat)
+    (hW : ∀ k, K ≤ k → ∀ bss v fv H, callFn k matchProg g ".matchWithBindingss" m [bss, v, fv] H = W bss v fv H)
+    (hfa : ∀ bss v fv H r H', W bss v fv H = .ok (r, H') → heapGet H fa = some fo → heapGet H' fa = some fo)
+    (hWs : ∀ bss v fv H acc e H', W bss v fv H = .ok ([acc, e], H') → IsSlice acc) :
+    ∀ (items : List (GV × GV)) (n : Nat) (bss : GV) (H : Heap),
+    (∀ kv ∈ items, ∃ s, kv.1 = .str s ∧ isVar s = false) → heapGet H fa = some fo →
+    loopR (n + K + items.length + 40) matchProg g
+        [("m", m), ("bss", bss), ("pattern", pat), ("fact", .ref fa)] H "" "k" "v" items mcBody =
+      (match mcSpec W fo.kvs items bss H with
+       | .error e => .error e
+       | .ok (fl, bss', H') => .ok (fl, [("m", m), ("bss", bss'), ("pattern", pat), ("fact", .ref fa)], H')) := by
+  intro items
+  induction items with
+  | nil => intro n bss H _ _; simp [loopR, mcSpec]
+  | cons it items ih =>
+    intro n bss H hk hH
+    obtain ⟨ik, v⟩ := it
+    obtain ⟨s, rfl, hs⟩ := hk (ik, v) (by simp)
+    have hk' : ∀ kv ∈ items, ∃ s, kv.1 = .str s ∧ isVar s = false := fun kv h => hk kv (by simp [h])
+    have hvar : ∀ j, callFn (n + K + (items.length + 1) + j + 10) matchProg g ".IsVariable" m [.str s] H = .ok ([.bool (isVar s)], H) :=
+      fun j => tr_IsVariable _ g m s H
+    simp only [mcSpec]
+    simp [-callFn, loopR, mcBody, matchProg_MmapcatMatch]
+    rw [show n + K + (items.length + 1) + 34 = n + K + (items.length + 1) + 24 + 10 from rfl, hvar 24]
+    simp [-callFn, hs, indexV, hH]
+    cases hl : mlookup (.str s) fo.kvs with
+    | none =>
+      simp [-callFn]
+      rw [show n + K + (items.length + 1) + 27 = (n + K + items.length + 16) + 12 by omega, tr_IsOptionalVariable]
+      by_cases hopt : isOptVarG v = true
+      · have hi := ih n bss H hk' hH
+        simp only [mcBody, matchProg_MmapcatMatch] at hi
+        simp [-callFn, hopt]
+        rw [show n + K + (items.length + 1) + 39 = n + K + items.length + 40 by omega]
+        exact hi
+      · have hopt' : isOptVarG v = false := by simpa using hopt
+        simp [-callFn, hopt']
+    | some fv =>
+      simp [-callFn]
+      rw [hW _ (by omega) bss v fv H]
+      cases hw : W bss v fv H with
+      | error e => simp
+      | ok r =>
+        obtain ⟨vs, H'⟩ := r
+        have hH' : heapGet H' fa = some fo := hfa bss v fv H vs H' hw hH
+        match vs with
+        | [] => simp
+        | [_] => simp
+        | _ :: _ :: _ :: _ => simp
+        | [acc, e] =>
+          cases e with
+          | nil =>
+            cases acc with
+            | nil => simp [-callFn, goLen]
+            | slice xs =>
+              cases xs with
+              | nil => simp [-callFn, goLen]
+              | cons x xs =>
+                have hi := ih n (.slice (x :: xs)) H' hk' hH'
+                simp only [mcBody, matchProg_MmapcatMatch] at hi
+                have hne : ¬ ((0 : Int) = (xs.length : Int) + 1) := by omega
+                simp [-callFn, goLen, hne]
+                rw [show n + K + (items.length + 1) + 39 = n + K + items.length + 40 by omega]
+                exact hi
+            | _ =>
+              exfalso
+              rcases hWs bss v fv H _ _ H' hw with h | ⟨xs, h⟩ <;> cases h
+          | _ => simp [-callFn]
+
+theorem firstVarKey_const (kvs : List (GV × GV)) (hk : ∀ kv ∈ kvs, ∃ s, kv.1 = .str s ∧ isVar s = false) :
+    firstVarKey kvs = none := by
+  induction kvs with
+  | nil => rfl
+  | cons kv rest ih =>
+    obtain ⟨k, v⟩ := kv
+    obtain ⟨s, rfl, hs⟩ := hk (k, v) (by simp)
+    rw [firstVarKey_nonvar v rest hs]
+    exact ih (fun kv h => hk kv (by simp [h]))
+
+theorem mc_shape : matchProg_MmapcatMatch.body =
+    [GS.ifs (some (GS.assign true [GL.var "err"] [GE.mcall (GE.var "m") ".checkForBadPropertyVariables" [GE.var "pattern"]]))
+       (GE.bin "!=" (GE.var "err") (GE.lit GV.nil)) [GS.ret [GE.lit GV.nil, GE.var "err"]] [],
+     GS.range "" "k" "v" (GE.var "pattern") mcBody,
+     GS.ret [GE.var "bss", GE.lit GV.nil]] := by rfl
+
+theorem mc_params : matchProg_MmapcatMatch.params = ["bss", "pattern", "fact"] ∧
+    matchProg_MmapcatMatch.recv = "m" ∧ matchProg_MmapcatMatch.variadic = false := ⟨rfl, rfl, rfl⟩
+
+/-- the translated `mapcatMatch` on a pattern map whose keys are all constants, relative to what
+    `matchWithBindingss` does -/
+theorem tr_mapcatMatch_const (n K : Nat) (g : Env) (H : Heap) (am pa fa : Nat) (mo po fo : MapObj) (bss : GV)
+    (W : GV → GV → GV → Heap → R (List GV × Heap))
+    (hm : heapGet H am = some mo) (hC : mlookup (.str "CheckForBadPropertyVariables") mo.kvs = some (.bool true))
+    (hp : heapGet H pa = some po) (hf : heapGet H fa = some fo)
+    (hk : ∀ kv ∈ po.kvs, ∃ s, kv.1 = .str s ∧ isVar s = false)
+    (hW : ∀ k, K ≤ k → ∀ bss v fv H, callFn k matchProg g ".matchWithBindingss" (.ref am) [bss, v, fv] H = W bss v fv H)
+    (hfa : ∀ bss v fv H r H', W bss v fv H = .ok (r, H') → heapGet H fa = some fo → heapGet H' fa = some fo)
+    (hWs : ∀ bss v fv H acc e H', W bss v fv H = .ok ([acc, e], H') → IsSlice acc) :
+    callFn (n + K + po.kvs.length + 60) matchProg g ".mapcatMatch" (.ref am) [bss, .ref pa, .ref fa] H =
+      (match mcSpec W fo.kvs po.kvs bss H with
+       | .error e => .error e
+       | .ok (.next, bss', H') => .ok ([bss', .nil], H')
+       | .ok (.ret vs, _, H') => .ok (vs, H')
+       | .ok _ => .error (.stuck "break/continue left a function")) := by
+  have hcfb := tr_checkForBadPropertyVariables (n + K + 14) g H am pa mo po hm hC hp
+    (fun kv h => by obtain ⟨s, hs, _⟩ := hk kv h; exact ⟨s, hs⟩)
+  have hnone := firstVarKey_const po.kvs hk
+  have hres : cfbResult po.kvs = .nil := by
+    unfold cfbResult; rw [hnone]; split <;> rfl
+  rw [hres] at hcfb
+  have hl := mc_loop g (.ref am) (.ref pa) fa fo W K hW hfa hWs po.kvs (n + 16) bss H hk hf
+  rw [show n + K + po.kvs.length + 60 = (n + K + po.kvs.length + 59) + 1 from rfl]
+  simp only [callFn, find_mapcat]
+  simp only [mc_shape]
+  simp [-callFn, mc_params.1, mc_params.2.1, mc_params.2.2]
+  rw [show n + K + po.kvs.length + 54 = n + K + 14 + po.kvs.length + 40 by omega, hcfb]
+  simp [-callFn, rangeItems, hp]
+  rw [show n + K + po.kvs.length + 56 = n + 16 + K + po.kvs.length + 40 by omega, hl]
+  cases mcSpec W fo.kvs po.kvs bss H with
+  | error e => simp
+  | ok r =>
+    obtain ⟨fl, bss', H'⟩ := r
+    cases fl <;> simp
 
 
 end Sheens.TrMatch
